@@ -10,6 +10,7 @@ import (
 	"strings"
 
 	"verif/core"
+	"verif/corpus"
 	"verif/gen/tsrc"
 )
 
@@ -107,6 +108,72 @@ func tokens(src string) ([]string, bool) {
 	return out, ok
 }
 
+// CheckFile is the C08 oracle for `templ fmt <file>` (fmtcmd with a file name:
+// imports.Process rewrites the import section between parsing and writing).
+// That path is allowed to change which packages a file imports — it removes
+// unused imports and adds missing ones — so "same program" is decided in two
+// parts, for z = x and for z = fmt(x) (the file after the imports were fixed):
+//
+//  1. F = fmt(z) must be accepted, and the generated code of z and F must be
+//     the same token sequence once the import declarations are taken out
+//     (positions masked as in Check)                 (else reject:* / differs:*)
+//  2. if what z generates imports exactly what it uses (no unused import, no
+//     missing standard-library package), then F must generate the same set of
+//     imports                                                   (else imports)
+//
+// A file the command refuses (goimports cannot process the generated code) is
+// left unchanged by it: counted as fmt_refused.
+func CheckFile(src string) tsrc.Outcome {
+	g, err := tsrc.Gen(src)
+	if err != nil {
+		return tsrc.Outcome{}
+	}
+	F, err := tsrc.FmtFile(src)
+	if err != nil {
+		return tsrc.Outcome{Accepted: true, Note: "fmt_refused"}
+	}
+	o := tsrc.Outcome{Accepted: true, Changed: F != src}
+	if cls, det := fileStep(g, F); cls != "" {
+		o.Class, o.Detail = cls, "first run: "+det
+		return o
+	}
+	F2, err := tsrc.FmtFile(F)
+	if err != nil {
+		return o
+	}
+	gF, _ := tsrc.Gen(F)
+	if cls, det := fileStep(gF, F2); cls != "" {
+		o.Class, o.Detail = cls, "second run (on the output of the first): "+det
+	}
+	return o
+}
+
+// fileStep compares what z generates (gz) with what its formatted form F generates.
+func fileStep(gz, F string) (class, detail string) {
+	gF, err := tsrc.Gen(F)
+	if err != nil {
+		return "reject:" + err.(*tsrc.GenError).Stage, fmt.Sprintf("formatted file is rejected by templ generate (%v); fmt output: %s", err, core.Q(clip(F, 300)))
+	}
+	iz, err1 := tsrc.ImportsOf(tsrc.Norm(gz))
+	iF, err2 := tsrc.ImportsOf(tsrc.Norm(gF))
+	if err1 != nil || err2 != nil {
+		return "", ""
+	}
+	if iz.Body != iF.Body && !sameTokens(iz.Body, iF.Body) {
+		la, lb := firstDiff(iz.Body, iF.Body)
+		class = "differs:other"
+		if wsOnly(iz.Body) == wsOnly(iF.Body) {
+			class = "differs:ws"
+		}
+		return class, fmt.Sprintf("generated code (imports aside) differs after formatting; fmt output %s; before %s, after %s", core.Q(clip(F, 300)), core.Q(clip(la, 200)), core.Q(clip(lb, 200)))
+	}
+	if iz.Consistent && iz.Set != iF.Set {
+		return "imports", fmt.Sprintf("the file imported exactly what it used (%s) but after formatting it imports %s (unused %v, missing %v); fmt output %s",
+			core.Q(iz.Set), core.Q(iF.Set), iF.Unused, iF.Missing, core.Q(clip(F, 300)))
+	}
+	return "", ""
+}
+
 func bodyOf(src string) string {
 	if b, ok := tsrc.BodyOf(src); ok {
 		return b
@@ -141,6 +208,9 @@ func firstDiff(a, b string) (string, string) {
 	la, lb := strings.Split(a, "\n"), strings.Split(b, "\n")
 	for i := 0; i < len(la) && i < len(lb); i++ {
 		if la[i] != lb[i] {
+			if strings.TrimSpace(la[i]) == strings.TrimSpace(lb[i]) {
+				return la[i], lb[i]
+			}
 			return strings.TrimSpace(la[i]), strings.TrimSpace(lb[i])
 		}
 	}
@@ -171,6 +241,16 @@ func Run(c *core.Ctx) {
 	r := tsrc.NewRunner(c, Check, "formatting changes the program")
 	r.Weaker = Weaker
 	r.Run()
+	// the named-file path of templ fmt (imports.Process), bounded workload
+	c.Assume("`templ fmt <file>` is driven through fmtcmd.Run with -stdin-filepath naming a file in a scratch module directory (same format function as the directory walk: parse, imports.Process, write); import cells only refer to standard-library packages and the templ module, so goimports resolves them without looking at the module cache")
+	tsrc.FmtFileDir(corpus.Scratch("c08fmt"), c.Repo)
+	rf := tsrc.NewRunner(c, CheckFile, "templ fmt <file> changes the program")
+	rf.Weaker, rf.Mode, rf.KeyPrefix, rf.NoRename = Weaker, "fmtfile", "fmtfile:", true
+	var progs []tsrc.Prog
+	for _, cl := range tsrc.ImportCells() {
+		progs = append(progs, tsrc.Prog{Origin: "impcell:" + cl.Name, Src: cl.Src})
+	}
+	rf.RunFile(progs)
 	if !c.Quick() && c.ReplayFile == "" {
 		renderSample(c)
 	}
